@@ -23,7 +23,10 @@ theorem parallel_split_sum (ws : List Dec) (a : Int) (xs : List Int)
   · simp [h0] at h
   · have hne : ws ≠ [] := fun e => h0 (by simp [e])
     have hW : 0 < (weightSum ws).raw := weightSum_pos ws hp hne
-    have hz : ¬ (ws.length ≥ 2 ∧ (weightSum ws).raw = 0) := by omega
+    have hz : ¬ (ws.length ≥ 2 ∧ Sunrise.Gen.KernelsSwap.split_share_ok Dec.zero a (weightSum ws) = false) := by
+      rintro ⟨_, hz⟩
+      simp [Sunrise.Gen.KernelsSwap.split_share_ok, Dec.isZero] at hz
+      omega
     simp only [h0, hz, if_false] at h
     simp only [Res.ok.injEq] at h
     subst h
